@@ -464,6 +464,24 @@ def cap_targets(case, cap=400.0):
     return [h.uniform(-10.0, cap) for _ in range(n)]
 
 
+def big_token_cases():
+    """tokens of a hundred atoms and more (prefix, suffix, end group, repeat unit), each followed by further attachments: atom indices of the
+    growing molecule beyond 99 (MolGen labels atoms with PDB serial numbers that it clamps at 99)"""
+    texts = ["CC" + "OCC" * 36 + "{[$][$]CC[$][$]}|uniform(30, 100)|N",
+             "C{[>][<]CC[>][<]}|uniform(30, 100)|" + "C" * 105,
+             "{[][<]CC[>]; [<]" + "C" * 101 + ", [>]N []}|uniform(30, 90)|",
+             "O{[>][<]C(" + "C" * 99 + ")C[>], [<]CC[>][<]}|uniform(1400, 3200)|F"]
+    out = []
+    for t in texts:
+        try:
+            c = parse_case(t, "bigtoken")
+        except Exception:
+            c = None
+        if c is not None:
+            out.append(c)
+    return out
+
+
 def corpus_cases():
     from corpus import notation_strings
     out = []
